@@ -210,6 +210,10 @@ func ghostSort(s string) *Sort {
 		return SBool
 	case "real":
 		return SReal
+	case "intmap":
+		return SArray(SInt, SInt)
+	case "boolmap":
+		return SArray(SInt, SBool)
 	}
 	return SInt
 }
